@@ -610,12 +610,36 @@ def view_c09(op, line):
 
 
 def view_c10(op, line):
-    """C10 looks at everything: outcome, getters, every native call with its descriptor / timeout / flags, close-on-exec"""
-    return line
+    """C10 looks at everything: outcome, getters, every native call with its descriptor / timeout / flags, close-on-exec.
+    HOW a descriptor becomes close-on-exec is not part of the statement (the `cx` field says whether it is): the
+    F_GETFD / F_SETFD calls are dropped from the issued-call list and accept4 (…, flags) counts as accept (…) — a source
+    that accepts with accept4 (SOCK_CLOEXEC) differs from the model (correspondence), not from the property."""
+    if " iss=" not in line:
+        return line
+    head, rest = line.split(" iss=", 1)
+    iss, tail = (rest.split(" ", 1) + [""])[:2]
+    out = []
+    for x in iss.split(","):
+        f = x.split(":")
+        if f[0] == "fcntl" and len(f) >= 3 and f[2] in ("1", "2"):
+            continue
+        if f[0] == "accept4":
+            x = ":".join(["accept"] + f[1:4])
+        out.append(x)
+    tail = " ".join(t for t in tail.split(" ") if not t.startswith("left="))   # unconsumed script entries: a correspondence matter
+    return "%s iss=%s %s" % (head, ",".join(out) or "-", tail)
+
+
+def desync(line):
+    """the implementation asked the scripted kernel for a native call the script does not hold at this point (`exhausted`,
+    `mismatch <wanted> <queued>`): the source issues other native calls than the model — a correspondence break; whether the
+    property fails is decided by the calls that follow (the script is re-synchronised at every op) and by the real-kernel runs"""
+    return line in ("exhausted", "dead") or line.startswith("mismatch ")      # `dead`: the rest of a case after a desync
 
 
 def make_family(exe, view):
-    return diffrun.Family("socket", exe, spec_view=view, timeout=300)
+    return diffrun.Family("socket", exe, spec_view=view, timeout=300,
+                          spec_match=lambda op, c, sp: desync(c) or desync(sp) or view(op, c) == view(op, sp))
 
 
 # --------------------------------------------------------------------------------------------
